@@ -1585,9 +1585,11 @@ func (fc *fctx) guardAccess(st *lfState, sel *ast.SelectorExpr) {
 	if fc.eng.GuardOK != nil && fc.eng.GuardOK(fc.sum, v, sel.Pos()) {
 		return
 	}
-	// explicitly released earlier on this path?
+	// a lock of this class that was held on entry has been released on this path: nothing the caller
+	// holds protects the access any more. (A lock taken and released locally leaves the function where
+	// it started: then the caller must hold one, which is recorded as a need below.)
 	for k, ks := range st.keys {
-		if ks.class == class && ks.mode == kNotHeld {
+		if ks.class == class && ks.mode == kNotHeld && st.pre[k] == kHeld {
 			fc.diag("guarded", class, sel.Pos(), fmt.Sprintf("field %s is accessed after %s was released", v.Name(), k), nil)
 			return
 		}
@@ -1606,7 +1608,7 @@ func (fc *fctx) guardNeed(st *lfState, class, what string, pos token.Pos) {
 		return
 	}
 	for k, ks := range st.keys {
-		if ks.class == class && ks.mode == kNotHeld {
+		if ks.class == class && ks.mode == kNotHeld && st.pre[k] == kHeld {
 			fc.diag("guarded", class, pos, fmt.Sprintf("%s is touched after %s was released", what, k), nil)
 			return
 		}
@@ -2091,7 +2093,7 @@ func (fc *fctx) applySummary(call *ast.CallExpr, st *lfState, cs *FuncSummary, d
 		}
 		released := false
 		for k, ks := range st.keys {
-			if ks.class == class && ks.mode == kNotHeld {
+			if ks.class == class && ks.mode == kNotHeld && st.pre[k] == kHeld {
 				fc.diag("guarded", class, pos, fmt.Sprintf("call to %s, which accesses %s-guarded state (field %s), after %s was released", cs.Name, class, ga.Field, k), ga.Chain)
 				released = true
 				break
